@@ -917,10 +917,17 @@ def engine_cases(rng: random.Random, tier: str) -> list[dict]:
         add(name=name, spec=spec, policy="fifo", all_prefixes=True, n_snaps=6 if thorough else 3)
         for pol in (["lifo", "random", "random", "random"] if thorough else ["random"]):
             add(name=name, spec=spec, policy=pol, all_prefixes=thorough)
+    fam["cycle_mid"] = {"stages": [S("A", tasks=[["ok"]]), S("M", ["A"], tasks=[["ok"]]), S("B", ["M"], tasks=[["jump:A", "ok"]]), S("C", ["B"])]}
     cancel_fams = list(fam) if thorough else ["chain3", "diamond", "multitask", "poll", "self_loop", "suspend", "first_of"]
     for name in cancel_fams:
         for at in (range(0, 24, 1) if thorough else (2, 5, 8, 11, 14)):
             add(name=name, spec=fam[name], policy="fifo" if at % 2 else "random", cancel_at=at)
+    if not thorough:
+        # a stage that finished, was re-armed by a backward jump and is cancelled before it starts again: the cancel must
+        # land between JumpToStage and the next StartStage, so every position is tried
+        for name in ("cycle2", "cycle_mid"):
+            for at in range(4, 24):
+                add(name=name, spec=fam[name], policy="fifo", cancel_at=at)
     for name, spec in rnd[: (20 if thorough else 4)]:
         add(name=name, spec=spec, policy="random", cancel_at=rng.randint(1, 15))
     return cases
@@ -1066,7 +1073,14 @@ def search(ctx, broken) -> list:
     for o in run_pool(run_replay_case, rcases):
         for v in o["violations"]:
             vs.append(_viol_replay_log(o, v))
-    ecases = engine_cases(ctx.rng, "thorough")[:600]
+    # the cancel-injection cases come last in the plan: take them first for the families with jumps / loops / synthetic
+    # stages (a re-armed stage that is then cancelled or skipped is where replay and store part most easily), then the rest
+    allc = engine_cases(ctx.rng, "thorough")
+    loops = [c for c in allc if "cancel_at" in c and any(t in (c.get("name") or "") for t in ("loop", "cycle", "jump", "jsyn", "fwd"))]
+    others = [c for c in allc if "cancel_at" in c and c not in loops]
+    plain = [c for c in allc if "cancel_at" not in c]
+    ctx.rng.shuffle(others)
+    ecases = (loops + plain[:300] + others)[:900]
     for o in run_pool(run_engine_case, ecases):
         for v in o["violations"]:
             vs.append(_viol_engine(o, v))
